@@ -139,9 +139,15 @@ def upstream(rng, n, alt_det, hostile=True):
             # the axis (0 / 0), far above the range
             alt[21], l[21] = np.inf, np.inf
             alt[22], l[22] = 40.0, float(L[22])
+            if m > 40:
+                # decays a hair below the ground (the altitude is a difference of two lengths of order R and
+                # can round below zero): outside [0, 10] km like any other negative altitude (seeded C20-17)
+                alt[23:27] = [-5e-324, -1e-12, float(np.nextafter(0.0, -1.0)) * 2**40, -9e-11]
         # viewed exactly along the shower axis: the parametrised field is certainly non-zero there
         theta = np.array(theta, copy=True)
         theta[[0, 11, 12, 13]] = 0.0
+        if m > 40:
+            theta[23:27] = 0.0
     if m > 24:
         theta[22] = 0.0
         theta[14 :: max(1, m // 40)] = 0.0
